@@ -75,6 +75,8 @@ type Frame struct {
 	defers     []deferred
 	newReach   *Term
 	recovered  *Term // value recover() yields inside this activation (deferred call during panicking)
+	renumbered bool
+	inferred   map[*loopInfo]*LoopSpec // invariants inferred for unannotated element-copy loops
 	callPos    token.Pos // position of the call this activation was inlined at
 	loopOwner  *Frame    // the frame whose contract annotates this frame's loops (itself, or an ancestor for a contract-less helper)
 }
@@ -104,6 +106,7 @@ type loopInfo struct {
 	header *ssa.BasicBlock
 	body   map[int]bool
 	ord    int
+	skip   bool // an unannotated element-copy loop left out of the contract's numbering
 }
 
 type loopRun struct {
@@ -411,6 +414,47 @@ func liveBlocks(fn *ssa.Function) map[int]bool {
 	return live
 }
 
+// skipCopyLoops: when the function has more loops than its contract mentions and some of them are unannotated
+// element-copy loops (inferLoopSpec), those are taken out of the numbering, so that a copy(dst, src) call rewritten
+// as a loop does not shift the annotations of the loops after it.
+func (ex *Exec) skipCopyLoops(fr *Frame) {
+	maxOrd := 0
+	for n := range fr.contract.Loops {
+		if n > maxOrd {
+			maxOrd = n
+		}
+	}
+	extra := len(fr.loops) - maxOrd
+	if extra <= 0 {
+		return
+	}
+	var lis []*loopInfo
+	for _, li := range fr.loops {
+		lis = append(lis, li)
+	}
+	sort.Slice(lis, func(i, j int) bool { return lis[i].ord < lis[j].ord })
+	skipped := 0
+	for _, li := range lis {
+		if skipped < extra && ex.isCopyLoop(fr, li) {
+			skipped++
+			li.skip = true
+		}
+	}
+	if skipped == 0 {
+		return
+	}
+	n := 0
+	for _, li := range lis {
+		if li.skip {
+			li.ord = 1000 + li.ord
+			continue
+		}
+		n++
+		li.ord = n
+	}
+	fr.renumbered = true
+}
+
 // assignLoopOrds sets the ordinal of every loop of the frame's function as the contract of the nearest enclosing
 // function under contract counts it.
 func (ex *Exec) assignLoopOrds(fr *Frame) {
@@ -426,6 +470,9 @@ func (ex *Exec) assignLoopOrds(fr *Frame) {
 	}
 	if owner == fr && fr.contract == nil {
 		return
+	}
+	if fr.contract != nil {
+		ex.skipCopyLoops(fr)
 	}
 	keys := ex.prog.expandedLoopKeys(owner.fn, 0, map[*ssa.Function]bool{owner.fn: true})
 	index := map[string]int{}
@@ -632,6 +679,9 @@ func (ex *Exec) setEdge(fr *Frame, from, to *ssa.BasicBlock, cond Term, st *Stat
 
 // loopSpec returns the loop annotations for a loop of the frame's function.
 func (fr *Frame) loopSpec(li *loopInfo) *LoopSpec {
+	if ls, ok := fr.inferred[li]; ok {
+		return ls
+	}
 	if fr.contract == nil {
 		if fr.loopOwner != nil && fr.loopOwner.contract != nil {
 			return fr.loopOwner.contract.Loops[li.ord]
@@ -646,6 +696,14 @@ func (ex *Exec) enterLoop(fr *Frame, li *loopInfo, states []*State, conds []Term
 	pre := ex.merge(states, conds)
 	reach := ex.nameReach(fr, h, Or(conds...))
 	ls := fr.loopSpec(li)
+	if ls == nil {
+		if ls = ex.inferLoopSpec(fr, li); ls != nil {
+			if fr.inferred == nil {
+				fr.inferred = map[*loopInfo]*LoopSpec{}
+			}
+			fr.inferred[li] = ls
+		}
+	}
 	if ls == nil {
 		panic(unsupported("loop %d of %s has no invariant (every loop must carry one)", li.ord, fr.fn))
 	}
